@@ -278,6 +278,20 @@ def build() -> Check:
         first_truthy = [v for k, v in t.pc if k == "truthy(lock._waiters)"]
         if not pops and not (t.outcome == "raise"):
             bad.append(("__exit__ does not release the lock", t))
+    # "that holder sees its own exception": the interpreter re-raises the body's exception only when __exit__ hands back a false value. Judged on the value of
+    # every returning path of the raised scenario (through the calls it makes - `return self.release()` is as good as release()'s own value)
+    swallow = []
+    n_ret = 0
+    for t in scen[True]:
+        if t.outcome == "return":
+            n_ret += 1
+            v = t.value
+            falsy = v is None or v is NONE or (isinstance(v, Const) and not v.value)
+            if not falsy:
+                swallow.append((f"after a body that raised, __exit__ returns {v.key() if v is not None else v}, which is not a constant false value: a true result makes "
+                                "the interpreter swallow the holder's exception - the holder never sees it", t))
+    ck.floor("exceptional_exit_returns", n_ret, 1)
+    ck.ob("R4.exit-hands-the-holder-its-exception", fn_construct(ex), not swallow, (swallow[0][0] + ": " + sig(swallow[0][1])) if swallow else f"{n_ret} returning path(s)")
     ck.floor("exceptional_exit_paths", n_exc, 1)
     ck.ob("R4.exceptional-exit-breaks-and-wakes-all", fn_construct(ex), not bad, (bad[0][0] + ": " + sig(bad[0][1])) if bad else "")
     ent = ol.methods["__enter__"]
